@@ -89,6 +89,9 @@ func (h265dp *h265Depacketizer) depacketizeStap(packet *Packet) (err error) {
 
 	// 循环读取被封装的NAL
 	for {
+		if off+2 > len(payload) { // no room for another NALU size
+			return
+		}
 		// nal长度
 		nalSize := ((uint16(payload[off])) << 8) | uint16(payload[off+1])
 		if nalSize < 1 {
@@ -96,6 +99,9 @@ func (h265dp *h265Depacketizer) depacketizeStap(packet *Packet) (err error) {
 		}
 
 		off += 2
+		if off+int(nalSize) > len(payload) { // truncated: the announced unit is not all there
+			return
+		}
 		frame := &codec.Frame{
 			MediaType: codec.MediaTypeVideo,
 			Payload:   make([]byte, nalSize),
